@@ -24,53 +24,95 @@ def StratOK (origTO : Int) (s : Strategy) : Prop := 0 ≤ s.fgTimeout ∧ s.fgTi
 theorem stratOK_default (origTO : Int) (h : 0 ≤ origTO) : StratOK origTO {} := by
   simp [StratOK, h]
 
-theorem build_ok (F : FloatOps) (minTO : Int) (largest : Nat) (med origTO : Int)
-    (hmin : 0 ≤ minTO) (horig : 0 ≤ origTO) (l : List (Nat × PerClass)) :
-    ∀ rb, match build F minTO largest med origTO l rb with
-      | .early ss => (∀ s ∈ ss, StratOK origTO s) ∧ ss.length ≤ l.length
-      | .full os ss => (∀ s ∈ ss, StratOK origTO s) ∧ ss.length = l.length ∧ os.length = l.length := by
+/-- Lengths of the results of `build` (no hypotheses needed). -/
+theorem build_length (F : FloatOps) (minTO : Int) (largest : Nat) (med origTO : Int) (l : List (Nat × PerClass)) :
+    ∀ rb, (∀ ss, build F minTO largest med origTO l rb = .early ss → ss.length ≤ l.length) ∧
+      (∀ os ss, build F minTO largest med origTO l rb = .full os ss →
+        ss.length = l.length ∧ os.length = l.length) := by
   induction l with
   | nil => intro rb; simp [build]
   | cons e rest ih =>
     intro rb
     obtain ⟨sc, pc⟩ := e
-    unfold build
-    simp only
-    split
-    · -- early return at this class
-      refine ⟨?_, by simp⟩
-      intro s hs
-      simp at hs
-      subst hs
-      simp [StratOK, horig]
-    · have hr := smallerParams_range F minTO sc largest med origTO hmin horig
-      -- the strategy appended for this class
-      have hs0 : ∀ (rb' : Bool), StratOK origTO
-          (if rb' = true then ({ background := true } : Strategy)
-           else { fgTimeout := (smallerParams F minTO sc largest med origTO).execTimeout }) := by
-        intro rb'
-        split
-        · simp [StratOK, horig]
-        · exact hr
+    constructor
+    · intro ss h
+      unfold build at h
+      simp only at h
+      split at h
+      · simp only [BuildRes.early.injEq] at h; subst h; simp
+      · split at h
+        · rename_i ss' heq
+          simp only [BuildRes.early.injEq] at h; subst h
+          have := (ih _).1 ss' heq
+          simp; omega
+        · simp at h
+    · intro os ss h
+      unfold build at h
+      simp only at h
+      split at h
+      · simp at h
+      · split at h
+        · simp at h
+        · rename_i os' ss' heq
+          simp only [BuildRes.full.injEq] at h
+          obtain ⟨h1, h2⟩ := h
+          subst h1; subst h2
+          have := (ih _).2 os' ss' heq
+          simp; omega
+
+theorem build_ok (F : FloatOps) (minTO : Int) (largest : Nat) (med origTO : Int)
+    (hmin : 0 ≤ minTO) (horig : 0 ≤ origTO) (l : List (Nat × PerClass)) :
+    ∀ rb, (∀ ss, build F minTO largest med origTO l rb = .early ss → ∀ s ∈ ss, StratOK origTO s) ∧
+      (∀ os ss, build F minTO largest med origTO l rb = .full os ss → ∀ s ∈ ss, StratOK origTO s) := by
+  induction l with
+  | nil => intro rb; simp [build]
+  | cons e rest ih =>
+    intro rb
+    obtain ⟨sc, pc⟩ := e
+    have hr := smallerParams_range F minTO sc largest med origTO hmin horig
+    -- the strategy appended for this class
+    have hs0 : ∀ (rb' : Bool), StratOK origTO
+        (if rb' = true then ({ background := true } : Strategy)
+         else { fgTimeout := (smallerParams F minTO sc largest med origTO).execTimeout }) := by
+      intro rb'
       split
-      · rename_i ss heq
-        have := ih _
-        rw [heq] at this
-        refine ⟨?_, by simp; omega⟩
+      · simp [StratOK, horig]
+      · exact hr
+    constructor
+    · intro ss h
+      unfold build at h
+      simp only at h
+      split at h
+      · simp only [BuildRes.early.injEq] at h; subst h
         intro s hs
-        simp only [List.mem_cons] at hs
-        rcases hs with hs | hs
-        · subst hs; exact hs0 _
-        · exact this.1 s hs
-      · rename_i os ss heq
-        have := ih _
-        rw [heq] at this
-        refine ⟨?_, by simp; omega, by simp; omega⟩
-        intro s hs
-        simp only [List.mem_cons] at hs
-        rcases hs with hs | hs
-        · subst hs; exact hs0 _
-        · exact this.1 s hs
+        simp at hs
+        subst hs
+        simp [StratOK, horig]
+      · split at h
+        · rename_i ss' heq
+          simp only [BuildRes.early.injEq] at h; subst h
+          intro s hs
+          simp only [List.mem_cons] at hs
+          rcases hs with hs | hs
+          · subst hs; exact hs0 _
+          · exact (ih _).1 ss' heq s hs
+        · simp at h
+    · intro os ss h
+      unfold build at h
+      simp only at h
+      split at h
+      · simp at h
+      · split at h
+        · simp at h
+        · rename_i os' ss' heq
+          simp only [BuildRes.full.injEq] at h
+          obtain ⟨h1, h2⟩ := h
+          subst h1; subst h2
+          intro s hs
+          simp only [List.mem_cons] at hs
+          rcases hs with hs | hs
+          · subst hs; exact hs0 _
+          · exact (ih _).2 os' ss' heq s hs
 
 theorem setProbs_mem (ss : List Strategy) : ∀ (ps : List Rat) (s : Strategy), s ∈ setProbs ss ps →
     ∃ s0 ∈ ss, s.fgTimeout = s0.fgTimeout ∧ s.background = s0.background := by
@@ -134,9 +176,7 @@ theorem forcedStrategies_ok (minTO origTO : Int) (pcs : List PerClass) (n : Nat)
       · subst hs; simp [StratOK, horig]
     · simp; omega
 
-theorem pageRankStrategies_ok (c : PageRankCfg) (m : ClassMap) (classes : List Nat) (origTO : Int)
-    (hmin : 0 ≤ c.minTO) (horig : 0 ≤ origTO) :
-    (∀ s ∈ (pageRankStrategies c m classes origTO).2.1, StratOK origTO s) ∧
+theorem pageRankStrategies_length (c : PageRankCfg) (m : ClassMap) (classes : List Nat) (origTO : Int) :
     (pageRankStrategies c m classes origTO).2.1.length ≤ classes.length := by
   unfold pageRankStrategies
   simp only
@@ -144,32 +184,53 @@ theorem pageRankStrategies_ok (c : PageRankCfg) (m : ClassMap) (classes : List N
   · simp
   · rename_i hn
     split
-    · exact forcedStrategies_ok _ _ _ _ hmin horig (by omega)
+    · unfold forcedStrategies
+      split
+      · rename_i i hi
+        have := firstEmpty_lt _ _ _ hi
+        simp only [List.length_take] at this
+        simp; omega
+      · simp; omega
+    · rename_i med _
+      have hb := build_length c.F c.minTO (classes.getLastD 0) med origTO
+        (List.take (classes.length - 1)
+          (classes.zip (classList (ensureClasses m classes) classes))) true
+      split
+      · rename_i ss heq
+        have := hb.1 ss heq
+        simp only [List.length_take] at this
+        simp only
+        omega
+      · simp only [List.length_take]
+        omega
+
+theorem pageRankStrategies_ok (c : PageRankCfg) (m : ClassMap) (classes : List Nat) (origTO : Int)
+    (hmin : 0 ≤ c.minTO) (horig : 0 ≤ origTO) :
+    ∀ s ∈ (pageRankStrategies c m classes origTO).2.1, StratOK origTO s := by
+  unfold pageRankStrategies
+  simp only
+  split
+  · simp
+  · rename_i hn
+    split
+    · exact (forcedStrategies_ok _ _ _ _ hmin horig (by omega)).1
     · rename_i med _
       have hb := build_ok c.F c.minTO (classes.getLastD 0) med origTO hmin horig
         (List.take (classes.length - 1)
           (classes.zip (classList (ensureClasses m classes) classes))) true
       split
       · rename_i ss heq
-        rw [heq] at hb
-        refine ⟨hb.1, ?_⟩
-        have := hb.2
-        simp only [List.length_take] at this
-        omega
+        exact hb.1 ss heq
       · rename_i os ss heq
-        rw [heq] at hb
         simp only
-        constructor
-        · intro s hs
-          have hs' := List.mem_of_mem_take hs
-          obtain ⟨s0, hm, h1, _⟩ := setProbs_mem _ _ _ hs'
-          simp only [List.mem_append, List.mem_singleton] at hm
-          simp only [StratOK, h1]
-          rcases hm with hm | hm
-          · exact hb.1 s0 hm
-          · subst hm; simp [horig]
-        · simp only [List.length_take]
-          omega
+        intro s hs
+        have hs' := List.mem_of_mem_take hs
+        obtain ⟨s0, hm, h1, _⟩ := setProbs_mem _ _ _ hs'
+        simp only [List.mem_append, List.mem_singleton] at hm
+        simp only [StratOK, h1]
+        rcases hm with hm | hm
+        · exact hb.2 os ss heq s0 hm
+        · subst hm; simp [horig]
 
 theorem smallestStrategies_ok (classes : List Nat) (origTO : Int) (horig : 0 ≤ origTO) :
     (∀ s ∈ smallestStrategies classes origTO, StratOK origTO s) ∧
@@ -189,8 +250,7 @@ def minNonneg (env : Env) : Prop :=
 
 theorem strategiesFD_ok (env : Env) (stats : Stats) (origTO : Int) (classes : List Nat) (now : Int)
     (hmin : minNonneg env) (horig : 0 ≤ origTO) :
-    (∀ s ∈ (strategiesFD env stats origTO classes now).2.1, StratOK origTO s) ∧
-    (strategiesFD env stats origTO classes now).2.1.length ≤ classes.length := by
+    ∀ s ∈ (strategiesFD env stats origTO classes now).2.1, StratOK origTO s := by
   unfold strategiesFD
   split
   · unfold Calc.strategies
@@ -198,65 +258,17 @@ theorem strategiesFD_ok (env : Env) (stats : Stats) (origTO : Int) (classes : Li
     · rename_i c hc
       simp only [minNonneg, hc] at hmin
       exact pageRankStrategies_ok c _ _ _ hmin horig
-    · exact smallestStrategies_ok _ _ horig
+    · exact (smallestStrategies_ok _ _ horig).1
   · simp
 
-/-- Without the hypotheses on the timeouts the number of strategies is still bounded. -/
+/-- The number of strategies never exceeds the number of size classes. -/
 theorem strategiesFD_length (env : Env) (stats : Stats) (origTO : Int) (classes : List Nat) (now : Int) :
     (strategiesFD env stats origTO classes now).2.1.length ≤ classes.length := by
   unfold strategiesFD
   split
   · unfold Calc.strategies
     split
-    · rename_i c _
-      unfold pageRankStrategies
-      simp only
-      split
-      · simp
-      · rename_i hn
-        split
-        · unfold forcedStrategies
-          split
-          · rename_i i hi
-            have := firstEmpty_lt _ _ _ hi
-            simp only [List.length_take] at this
-            simp; omega
-          · simp; omega
-        · rename_i med _
-          -- lengths do not depend on the timeout hypotheses: reuse `build_ok` with min/orig replaced by 0 is not
-          -- possible, so redo the length part by a direct induction
-          have hlen : ∀ (l : List (Nat × PerClass)) (rb : Bool),
-              match build c.F c.minTO (classes.getLastD 0) med origTO l rb with
-              | .early ss => ss.length ≤ l.length
-              | .full _ ss => ss.length = l.length := by
-            intro l
-            induction l with
-            | nil => intro rb; simp [build]
-            | cons e rest ih =>
-              intro rb
-              obtain ⟨sc, pc⟩ := e
-              unfold build
-              simp only
-              split
-              · simp
-              · split
-                · rename_i ss heq
-                  have := ih _
-                  rw [heq] at this
-                  simp; omega
-                · rename_i os ss heq
-                  have := ih _
-                  rw [heq] at this
-                  simp; omega
-          have hb := hlen (List.take (classes.length - 1)
-            (classes.zip (classList (ensureClasses m classes) classes))) true
-          split
-          · rename_i ss heq
-            rw [heq] at hb
-            simp only [List.length_take] at hb
-            omega
-          · simp only [List.length_take]
-            omega
+    · exact pageRankStrategies_length _ _ _ _
     · unfold smallestStrategies
       split
       · simp
@@ -370,7 +382,8 @@ theorem step_range (env : Env) (origTO : Int) (l : Learner) (stats : Stats) (ev 
     simp only [TOk] at hok
     simp [Ev.indexLog, TOk, hok]
   · -- largestBg.succeeded
-    rename_i largest largestTO smaller d classes
+    simp only [TOk] at hok
+    subst hok
     split at h
     · rename_i i hf
       split at h
@@ -385,7 +398,6 @@ theorem step_range (env : Env) (origTO : Int) (l : Learner) (stats : Stats) (ev 
           subst hp
           simp; omega
         · intro hmin horig
-          simp only [TOk] at hok
           simp only
           unfold Calc.backgroundTimeout at hbt
           split at hbt
@@ -399,8 +411,7 @@ theorem step_range (env : Env) (origTO : Int) (l : Learner) (stats : Stats) (ev 
               · simp at hbt
               · simp only [Option.some.injEq] at hbt
                 subst hbt
-                have := smallerParams_range c.F c.minTO ((classes.getD i 0)) (classes.getLastD 0) _ largestTO hmin (by omega)
-                omega
+                exact smallerParams_range c.F c.minTO _ _ _ _ hmin horig
           · simp at hbt
     · simp only [Option.some.injEq] at h; subst h; simp at hn
   · -- fbSmaller.failed
